@@ -431,9 +431,20 @@ func (a *Array) Example(r *ExampleGenerator) any {
 func (a *Array) MakeSlice(s []any) any {
 	slice := reflect.MakeSlice(toReflectType(a), 0, len(s))
 	for _, item := range s {
-		slice = reflect.Append(slice, reflect.ValueOf(item))
+		slice = reflect.Append(slice, exampleValue(item, slice.Type().Elem()))
 	}
 	return slice.Interface()
+}
+
+// exampleValue returns v as a value of type t. An enum value keeps the Go type
+// it was written with (Enum(1, 2) on Int32 elements yields int values), which
+// reflect.Append and SetMapIndex refuse: convert it.
+func exampleValue(v any, t reflect.Type) reflect.Value {
+	rv := reflect.ValueOf(v)
+	if rv.IsValid() && !rv.Type().AssignableTo(t) && rv.CanConvert(t) {
+		return rv.Convert(t)
+	}
+	return rv
 }
 
 // ToSlice converts an ArrayVal into a slice.
@@ -600,7 +611,7 @@ func (m *Map) MakeMap(raw map[any]any) any {
 		return reflect.ValueOf(keys[i]).String() < reflect.ValueOf(keys[j]).String()
 	})
 	for _, key := range keys {
-		ma.SetMapIndex(reflect.ValueOf(key), reflect.ValueOf(raw[key]))
+		ma.SetMapIndex(exampleValue(key, ma.Type().Key()), exampleValue(raw[key], ma.Type().Elem()))
 	}
 	return ma.Interface()
 }
